@@ -10,11 +10,12 @@ EXTENDS Naturals, Sequences, FiniteSets, TLC, Json
 
 CONSTANTS L          \* behaviour length (number of steps)
 
-VARIABLES st, pt, hist
-vars == <<st, pt, hist>>
+VARIABLES st, pt, kt, hist
+vars == <<st, pt, kt, hist>>
 
 SReg  == {"r1", "r2"}
 PReg  == {"p1", "p2"}
+KReg  == {"k1", "k2"}                 \* scalar registers (Scalar.Pick, C02: value determined by the bytes drawn)
 Seeds == {"A", "B"}
 Kinds == {"xof", "zeros", "ones"}     \* zeros/ones: adversarial prefix forcing retries, then the seeded XOF
 DLens == {"0", "1", "Lm1", "L", "Lp1", "Lp8"}   \* data length relative to EmbedLen
@@ -29,6 +30,7 @@ NoPoint  == [src |-> "none", key |-> <<>>, data |-> <<>>]
 Init == \E k \in Kinds :
         /\ st = [r \in SReg |-> [seed |-> "A", kind |-> k, ops |-> <<>>]]
         /\ pt = [p \in PReg |-> NoPoint]
+        /\ kt = [x \in KReg |-> NoPoint]
         /\ hist = <<[op |-> "init", kind |-> k]>>
 
 \* what Data() must return for an embedded point: the stored class, truncated to EmbedLen
@@ -52,18 +54,18 @@ Obs(p, newpt) == [rel |-> Relation(newpt[p], newpt[Other(p)]),
                   data |-> IF newpt[p].src = "embed" THEN <<newpt[p].data[1], newpt[p].data[2]>> ELSE <<>>]
 
 Step(rec, newst, newpt, p) ==
-  /\ st' = newst /\ pt' = newpt
+  /\ st' = newst /\ pt' = newpt /\ UNCHANGED kt
   /\ hist' = Append(hist, rec @@ [obs |-> Obs(p, newpt)])
 
 NewStream(r, seed, kind) ==
   /\ st' = [st EXCEPT ![r] = [seed |-> seed, kind |-> kind, ops |-> <<>>]]
-  /\ UNCHANGED pt
+  /\ UNCHANGED <<pt, kt>>
   /\ hist' = Append(hist, [op |-> "newstream", r |-> r, seed |-> seed, kind |-> kind])
 
 CopyStream(r, r2) ==
   /\ r # r2 /\ st[r2].seed # "-"
   /\ st' = [st EXCEPT ![r] = st[r2]]
-  /\ UNCHANGED pt
+  /\ UNCHANGED <<pt, kt>>
   /\ hist' = Append(hist, [op |-> "copystream", r |-> r, r2 |-> r2])
 
 Pick(p, r) ==
@@ -78,6 +80,17 @@ Embed(p, r, dl, dc) ==
      Step([op |-> "embed", p |-> p, r |-> r, dl |-> dl, dc |-> dc],
           [st EXCEPT ![r].ops = Append(@, <<"embed", dl, DC(dl, dc)>>)], [pt EXCEPT ![p] = v], p)
 
+\* Scalar.Pick: the scalar is a function of the stream's past; range [0,q) is checked by the replayer
+OtherK(k) == CHOOSE o \in KReg : o # k
+SPick(k, r) ==
+  /\ st[r].seed # "-"
+  /\ LET v == [src |-> "pick", key |-> st[r], data |-> <<>>]
+         nk == [kt EXCEPT ![k] = v] IN
+     /\ st' = [st EXCEPT ![r].ops = Append(@, <<"spick">>)]
+     /\ kt' = nk /\ UNCHANGED pt
+     /\ hist' = Append(hist, [op |-> "spick", k |-> k, r |-> r,
+                              obs |-> [rel |-> Relation(nk[k], nk[OtherK(k)]), data |-> <<>>]])
+
 Hash(p, m, d) ==
   Step([op |-> "hash", p |-> p, m |-> m, dst |-> d], st,
        [pt EXCEPT ![p] = [src |-> "hash", key |-> <<m, d>>, data |-> <<>>]], p)
@@ -91,6 +104,7 @@ Next ==
   /\ \/ \E r \in SReg, s \in Seeds, k \in Kinds : NewStream(r, s, k)
      \/ \E r, r2 \in SReg : CopyStream(r, r2)
      \/ \E p \in PReg, r \in SReg : Pick(p, r)
+     \/ \E k \in KReg, r \in SReg : SPick(k, r)
      \/ \E p \in PReg, r \in SReg, dl \in DLens, dc \in DConts : Embed(p, r, dl, dc)
      \/ \E p \in PReg, m \in Msgs, d \in Dsts : Hash(p, m, d)
      \/ \E p, p2 \in PReg : Codec(p, p2)
@@ -107,10 +121,10 @@ StreamDiscipline ==
      \A r \in SReg :
         \/ st'[r] = st[r]
         \/ last.op \in {"newstream", "copystream"} /\ last.r = r
-        \/ /\ last.op \in {"pick", "embed"} /\ last.r = r
+        \/ /\ last.op \in {"pick", "embed", "spick"} /\ last.r = r
            /\ Len(st'[r].ops) = Len(st[r].ops) + 1
            /\ SubSeq(st'[r].ops, 1, Len(st[r].ops)) = st[r].ops]_vars
-View == <<st, pt>>
+View == <<st, pt, kt>>
 \* only behaviours that end in a point-producing step are interesting
-Emit == (Len(hist) = L /\ hist[L].op \in {"pick", "embed", "hash", "codec"}) => PrintT(<<"TRACE", ToJson(hist)>>)
+Emit == (Len(hist) = L /\ hist[L].op \in {"pick", "embed", "hash", "codec", "spick"}) => PrintT(<<"TRACE", ToJson(hist)>>)
 =============================================================================
